@@ -89,6 +89,16 @@ func (q *UdpTaskQueue) popOverflowTask() (UdpTask, bool) {
 	q.enqueueMu.Lock()
 	defer q.enqueueMu.Unlock()
 
+	// The caller saw the channel empty before taking the lock. Producers may
+	// have filled it and spilled into the overflow list since then, and every
+	// channel entry is older than every overflow entry. Under enqueueMu no
+	// producer can add to the channel, so re-check it here to keep FIFO order.
+	select {
+	case task := <-q.ch:
+		return task, true
+	default:
+	}
+
 	if len(q.overflow) == 0 {
 		q.overflowMode = false
 		return nil, false
